@@ -15,7 +15,7 @@ def main():
         res = []
         for r in reqs:
             try:
-                v = build(r["spec"], perm_seed=r.get("perm"), fresh_strings=r.get("fresh", False))
+                v = build(r["spec"], perm_seed=r.get("perm"), fresh_strings=r.get("fresh", False), share_leaves=r.get("share", False))
                 res.append({"md5": joblib.hash(v), "sha1": joblib.hash(v, hash_name="sha1")})
             except Exception as e:
                 res.append({"error": "%s: %s" % (type(e).__name__, e)})
